@@ -80,6 +80,9 @@ func wireOf(P *Program, vt *VersionTable, fn *ssa.Function, proto int64) (wAuto,
 
 func runC04(c *Ctx) {
 	checkForgeShortLayout(c, "forge-short-layout")
+	// a field that round-trips must be written with its own width and kind at every released protocol:
+	// the Encode language (typed tokens: a boolean is not a byte) is compared with the reference table
+	checkWireGolden(c, "reference-wire")
 	vt, err := evalVersionTable(c.P)
 	if err != nil {
 		c.Undecided("table", "version.Versions", err.Error())
